@@ -22,7 +22,7 @@ FACTS_VERSION = "2"
 
 # floors: number of bodies counted on the pinned tree (minus a margin for legitimate shrinkage);
 # an export below the floor means the driver did not see the crate and every check fails closed.
-BODY_FLOORS = {"precis_core": 150, "precis_profiles": 100, "precis_tools": 120, "pv_positive": 15}
+BODY_FLOORS = {"precis_core": 150, "precis_profiles": 100, "precis_tools": 120, "pv_positive": 15}  # local bodies (exported std bodies not counted)
 
 
 class FactsError(Exception):
@@ -168,7 +168,7 @@ def load(repo=REPO, variant="lib"):
             name = name + "#test"
         if name in crates:
             # precis_tools is compiled twice (build-dependency and dev-dependency): keep one
-            if len(data["bodies"]) != len(crates[name]["bodies"]):
+            if sum(1 for b in data["bodies"] if not b.get("ext")) != sum(1 for b in crates[name]["bodies"] if not b.get("ext")):
                 raise FactsError("two exports of %s disagree on body count" % name)
             continue
         data["_file"] = f
@@ -176,7 +176,7 @@ def load(repo=REPO, variant="lib"):
     for name, floor in BODY_FLOORS.items():
         if name not in crates:
             raise FactsError("no facts for crate %s in %s" % (name, d))
-        n = len(crates[name]["bodies"])
+        n = sum(1 for b in crates[name]["bodies"] if not b.get("ext"))
         if n < floor:
             raise FactsError("crate %s: %d bodies exported, floor %d" % (name, n, floor))
         if crates[name]["errors"]:
